@@ -543,10 +543,21 @@ theorem checkOn_default_eq (o : CheckObj) (x t0 : V) (a : Arg) (hd : o.default =
     rw [hall] at hv <;> simp only [Bool.false_eq_true, if_false, if_true] at hv <;>
     cases e1 <;> cases k1 <;> cases e2 <;> cases k2 <;> cases e3 <;> cases k3 <;> simp [hv]
 
+omit hw in
+/-- the Check described by the documentation of the arguments is the one `Check.__init__` builds,
+    and the same argument errors are raised -/
+theorem checkObjRef_eq (a : CheckArgs) :
+    checkObjRef a = (match checkInit a with | .ok o => .ok o | .error e => .error e.cls) := by
+  obtain ⟨sp, ty, io, eq, oo, va, df⟩ := a
+  unfold checkObjRef checkArgErrors checkInit
+  rcases io with _ | (_ | (_ | ⟨_, _⟩)) <;> rcases ty with _ | (_ | (_ | ⟨_, _⟩)) <;>
+    rcases eq with _ | _ <;> rcases oo with _ | (_ | ⟨_, _⟩) <;> rcases va with _ | _ <;>
+    simp [omEmpty, omList, OneOrMany.toList]
+
 theorem checkGlomit_rel (a : CheckArgs) (o : CheckObj) (ho : checkInit a = .ok o) (t0 : V) :
     Rel env (checkGlomit env o t0) (checkRef env.cls a t0) := by
   unfold checkGlomit checkRef
-  rw [ho]
+  rw [checkObjRef_eq, ho]
   simp only
   cases o.spec with
   | none => exact checkOn_rel hw o t0 t0
@@ -967,28 +978,28 @@ theorem eval_rel : ∀ (s : Spec) (t : V), ctorErr s = none →
       exact raise_rel hw "_glom_match/callable" 0 .comb [id] (by simp [siteOrigins])
   | .list alts, t, hc => by
     simp only [eval, denote]
-    cases t with
+    cases t.unsub with
     | list items =>
       exact finish_map_rel (itemsLoop_rel hw alts.isEmpty (evalAlts env alts) (denAlt env.cls alts)
         (fun item last => evalAlts_rel alts item last (by simpa [ctorErr] using hc)) items none) V.list
     | _ => exact raise_rel hw "_glom_match/listlike" 0 .typ [] (by simp [siteOrigins])
   | .set alts, t, hc => by
     simp only [eval, denote]
-    cases t with
+    cases t.unsub with
     | set items =>
       exact finish_bind_rel (itemsLoop_rel hw alts.isEmpty (evalAlts env alts) (denAlt env.cls alts)
         (fun item last => evalAlts_rel alts item last (ctorErr_setlike (by simpa [ctorErr] using hc))) items none) _ _ (mkSet_rel hw false)
     | _ => exact raise_rel hw "_glom_match/listlike" 0 .typ [] (by simp [siteOrigins])
   | .fset alts, t, hc => by
     simp only [eval, denote]
-    cases t with
+    cases t.unsub with
     | fset items =>
       exact finish_bind_rel (itemsLoop_rel hw alts.isEmpty (evalAlts env alts) (denAlt env.cls alts)
         (fun item last => evalAlts_rel alts item last (ctorErr_setlike (by simpa [ctorErr] using hc))) items none) _ _ (mkSet_rel hw true)
     | _ => exact raise_rel hw "_glom_match/listlike" 0 .typ [] (by simp [siteOrigins])
   | .tuple ps, t, hc => by
     simp only [eval, denote]
-    cases t with
+    cases t.unsub with
     | tuple items =>
       simp only
       split
@@ -997,7 +1008,7 @@ theorem eval_rel : ∀ (s : Spec) (t : V), ctorErr s = none →
     | _ => exact raise_rel hw "_glom_match/tuple" 0 .typ [] (by simp [siteOrigins])
   | .dict es, t, hc => by
     simp only [eval, denote]
-    cases t with
+    cases t.unsub with
     | dict items =>
       have hcd : ctorErrD es = none := by simpa [ctorErr] using hc
       have hkd : keysHashable es = true := ctorErrD_hashable hcd
@@ -1024,14 +1035,14 @@ theorem eval_rel : ∀ (s : Spec) (t : V), ctorErr s = none →
           simp only at hl2
           obtain ⟨rfl, hreq⟩ := hl2
           simp only
-          have hf := fillDefaults_rel hw (.dict items) (dictDefaults es) result
-          cases hfa : fillDefaults (.dict items) (dictDefaults es) result with
+          have hf := fillDefaults_rel hw t (dictDefaults es) result
+          cases hfa : fillDefaults t (dictDefaults es) result with
           | error e =>
-            cases hfb : defaultsRef (.dict items) (dictDefaults es) result with
+            cases hfb : defaultsRef t (dictDefaults es) result with
             | error v => rw [hfa, hfb] at hf; exact ⟨hf, hl1⟩
             | ok _ => rw [hfa, hfb] at hf; exact absurd hf (by simp [FillRel])
           | ok r1 =>
-            cases hfb : defaultsRef (.dict items) (dictDefaults es) result with
+            cases hfb : defaultsRef t (dictDefaults es) result with
             | error v => rw [hfa, hfb] at hf; exact absurd hf (by simp [FillRel])
             | ok r2 =>
               rw [hfa, hfb] at hf
